@@ -4,7 +4,8 @@ block, one sender per peer; peer A's sender never completes) checked by TLC for 
 of the healthy peer B ends) under weak fairness; the two ways the code as found breaks it are named
 and shown by TLC; HeadOfLineScripts.tla enumerates the scenario scripts, each is run on a real responder
 with A's link stalled and a watchdog on B's requests, HeadOfLineOracle.tla judges."""
-import json, os, tempfile, shutil, random
+import json, os, tempfile, shutil, random, subprocess
+from concurrent.futures import ThreadPoolExecutor
 from vlib import *
 
 GOENV = {"GOLOG_LOG_LEVEL": "fatal"}
@@ -107,7 +108,47 @@ def run(pid, tier, seed):
             for prob in x["c25"]:
                 v.violation(prob, "per-peer limit %d, script %s: %s; model of the code as found: %s" % (
                     rec["case"]["limit"], json.dumps(rec["case"]["script"]), json.dumps(rec["obs"])[:500], json.dumps(rec["case"]["finals"])[:300]), rec)
-        cov = {"states": states, "transitions": trans, "traces_validated_against_impl": len(cases),
+        # ---- requestor half: HeadOfLineReq.tla (no shared thread waits for a peer's sender; a worker is held for as long as its
+        # request waits for its peer), scenarios hook x number of requests to the stalled peer, one child process each
+        rq = tlc_must_pass(run_tlc("HeadOfLine", "HeadOfLineReq.tla", "HolReq.cfg", workers=1, timeout=600), "HeadOfLineReq (requests to A below the worker count)")
+        states += rq.distinct
+        trans += rq.generated
+        rqa = run_tlc("HeadOfLine", "HeadOfLineReq.tla", "HolReqAll.cfg", workers=1, timeout=600)
+        if rqa.violation != "temporal":
+            raise Infra("HeadOfLineReq.tla: requests to the stalled peer holding every worker no longer break BCompletes: the model has become vacuous")
+        scen = []
+        for x in rqa.printed():
+            d = json.loads(x)
+            if d not in scen:
+                scen.append(d)
+        exe = build_harness("verif")
+        env = goenv()
+        env["GOLOG_LOG_LEVEL"] = "fatal"
+
+        def one(d):
+            cp = subprocess.run([exe, "holreq-run", "--hook", d["hook"], "--na", str(d["na"]), "--w", str(d["w"])], capture_output=True, text=True, env=env, timeout=60)
+            o = None
+            for ln in cp.stdout.splitlines():
+                if ln.startswith("{"):
+                    o = json.loads(ln)
+            if o is None:
+                raise Infra("holreq-run failed: %s" % cp.stderr[-1500:])
+            return {"case": d, "obs": o}
+        with ThreadPoolExecutor(max_workers=4) as ex:
+            rrecs = list(ex.map(one, scen))
+        for rec in rrecs:
+            d, o = rec["case"], rec["obs"]
+            ok = o["bDone"] and o["bNodes"] == o["wantNodes"] and not o["bErrs"] and o["loopResponsive"]
+            if ok:
+                continue
+            if not o["loopResponsive"]:
+                sig = "requestor:manager-loop-blocked-by-stalled-peer"
+            elif not d["completes"] and not o["bDone"]:
+                sig = "requestor:resumed-request-waits-for-worker-held-by-stalled-peer"
+            else:
+                sig = "requestor:healthy-peer-exchange-not-completed"
+            v.violation(sig, "requestor with %d workers, %d requests to the stalled peer, block hook of the healthy peer's request: %s: %s" % (d["w"], d["na"], d["hook"], json.dumps(o)[:400]), rec)
+        cov = {"states": states, "transitions": trans, "traces_validated_against_impl": len(cases) + len(rrecs), "requestor_scenarios": len(rrecs),
                "samples": [cases[len(cases) // 2]["script"], cases[len(cases) // 3]["script"]], "exhaustive": False,
                "scripts_enumerated": n_all, "scripts_total": len(cases), "spec_mismatch": n_mismatch, "desync": n_desync,
                "rule": "behaviours of HeadOfLineScripts.tla (2 workers, allowance of 2 blocks, <= 3 messages / API calls from the stalled peer A and the healthy peer B, "
@@ -115,6 +156,6 @@ def run(pid, tier, seed):
         if not v.new and not v.known_hit and n_mismatch > len(cases) // 10:
             raise Infra("too many scripts on which model and code disagree (%d of %d): model or harness out of date" % (n_mismatch, len(cases)))
         return v.finish(cov, ["TLC", "verifnet raw peers", "events are sent when the responder's observable counters have been stable for 25 ms",
-                              "'eventually' is a 2 s deadline on the real code", "the requestor half of the statement is covered by the requestor scripts with a silent peer (C04/C09), not here"])
+                              "'eventually' is a 2 s deadline on the real code", "requestor half: scenarios of HeadOfLineReq.tla (hook of the healthy peer's request x 0..3 requests to a peer whose link is stalled, 2 workers), one process each, 3 s deadline"])
     finally:
         shutil.rmtree(tmp, ignore_errors=True)
